@@ -3,7 +3,7 @@
 // The real Server.buildParticipantConfig (through consensus/vbft/export_verif.go) is evaluated over
 // (seed block, chain config) pairs; every returned selection is checked against the statement, every
 // error return must be explained by the position table / the seed's draws, and every evaluation is
-// repeated on deep-copied inputs, in this process and in a fresh process (map orders differ).
+// repeated on deep-copied inputs by a node with another own index (validator, foreign index, 0, MaxUint32 = node outside the validator set), in this process and in a fresh process (map orders differ).
 package c40
 
 import (
@@ -12,6 +12,7 @@ import (
 	"encoding/hex"
 	"encoding/json"
 	"fmt"
+	"math"
 	"math/rand"
 	"os"
 	"os/exec"
@@ -194,6 +195,13 @@ func digest(p *vbft.BlockParticipantConfig, err error) string {
 	return hex.EncodeToString(h[:8])
 }
 
+func describe(p *vbft.BlockParticipantConfig, err error) string {
+	if err != nil {
+		return "error: " + err.Error()
+	}
+	return fmt.Sprintf("P=%v E=%v C=%v", p.Proposers, p.Endorsers, p.Committers)
+}
+
 var shapes = []string{"generated", "equal", "equal", "skew-heavy", "skew-heavy", "skew-thin", "missing", "short"}
 
 // walk enumerates the case list of (seed, tier): f is called for every (config, seed block).
@@ -263,15 +271,34 @@ func TestC40(t *testing.T) {
 	walk(r.Rand("cases"), nCfg, nSeeds, func(ci, si int, c *cfgCase, blk *vbft.Block, blkNum uint32) {
 		cc := c.CC
 		C := cc.C
-		p, err := vbft.VerifBuildParticipantConfig(7, blkNum, blk, cc)
+		// the node that derives the selection: a validator of the set, a node whose index is not in
+		// the set, index 0, and a node outside the validator set altogether (observer / sync-only /
+		// removed validator: Server.Index == math.MaxUint32) — in turn as primary and as second evaluation
+		selves := []uint32{c.Ids[(ci+si)%len(c.Ids)], math.MaxUint32, 0, 4000000 + uint32(si), c.Ids[0]}
+		self1 := selves[(ci+si)%len(selves)]
+		self2 := selves[(ci+si+1+si%3)%len(selves)]
+		for _, sf := range []uint32{self1, self2} {
+			if sf == math.MaxUint32 {
+				r.Count("evaluated_on_node_outside_validator_set", 1)
+			} else if distinctIn(c.Ids)[sf] {
+				r.Count("evaluated_on_validator_node", 1)
+			} else {
+				r.Count("evaluated_on_node_with_foreign_index", 1)
+			}
+		}
+		p, err := vbft.VerifBuildParticipantConfig(self1, blkNum, blk, cc)
 		r.Eval(1)
 		if ci < childCfg {
 			digests = append(digests, digest(p, err))
 		}
 		// determinism, same process: fresh server, deep-copied inputs
-		p2, err2 := vbft.VerifBuildParticipantConfig(3, blkNum, copyBlock(blk), copyCfg(cc))
+		p2, err2 := vbft.VerifBuildParticipantConfig(self2, blkNum, copyBlock(blk), copyCfg(cc))
 		if digest(p, err) != digest(p2, err2) {
-			r.Violation("selection:nondeterministic-same-process", fmt.Sprintf("N=%d C=%d shape=%s: two evaluations of the same inputs differ", c.N, C, c.Shape),
+			key := "selection:nondeterministic-same-process"
+			if self1 != self2 {
+				key = "selection:differs-between-nodes" // every node derives the same selection from the same inputs
+			}
+			r.Violation(key, fmt.Sprintf("N=%d C=%d shape=%s: node with index %d and node with index %d derive different selections from the same inputs (%s vs %s)", c.N, C, c.Shape, self1, self2, describe(p, err), describe(p2, err2)),
 				map[string]interface{}{"cfg": cc, "height": blk.Block.Header.Height, "vrf": kit.Hex(blk.Info.VrfValue)})
 		}
 		table := distinctIn(cc.PosTable)
@@ -416,6 +443,9 @@ func TestC40(t *testing.T) {
 	r.Require("error_table_cannot_supply", 20)
 	r.Require("cross_process_compared", 1000)
 	r.Require("generated_config_sizes", 37)
+	r.Require("evaluated_on_node_outside_validator_set", nCfg*nSeeds/10)
+	r.Require("evaluated_on_validator_node", nCfg*nSeeds/10)
+	r.Require("evaluated_on_node_with_foreign_index", nCfg*nSeeds/10)
 }
 
 // TestC40Child recomputes the first configs of the same case list in a fresh process and writes one
